@@ -82,6 +82,8 @@ def pos_preds(draw, ndim, levelmax, around_leaf=None):
     return {"form": "leaf", "leaf": draw(st.floats(0, 0.999)), "axes": "".join(sorted(axes)),
             "rel": draw(st.sampled_from([0.02, 0.1, 0.3, 0.6, 0.9, 1.5, 3.0, 8.0])),
             "shift": [draw(st.floats(-0.4, 0.4)) for _ in axes],
+            # centred: shifts are relative to the width of the box, so the chosen leaf's centre is always selected
+            "centred": draw(st.integers(0, 2)) > 0,
             "by_size": draw(st.booleans()), "edge": draw(st.integers(0, 6)) == 0,
             # at 20%: the leaf nearest to one of the 2^ndim domain corners (first / last cubes of the curve)
             "corner": draw(st.sampled_from([None, None, None, None, 1, 1, 0, 2, 3, 4, 5, 6, 7]))}
@@ -89,7 +91,7 @@ def pos_preds(draw, ndim, levelmax, around_leaf=None):
 
 @st.composite
 def value_preds(draw, mesh_vars):
-    cands = [v for v in mesh_vars if not v.startswith("B_")]
+    cands = [v for v in mesh_vars if not v.startswith("B_") and not v.startswith("photon_flux")]
     if not cands:
         return None
     return {"var": draw(st.sampled_from(cands)), "op": draw(st.sampled_from([">", "<"])), "qf": draw(st.floats(0.05, 0.95))}
@@ -124,7 +126,7 @@ def resolve(spec, m, exp):
                 out["leaf"] = {"index": i, "level": int(exp["level"][i]), "centre": cen.tolist()}
                 for j, a in enumerate(p["axes"]):
                     d = "xyz".index(a)
-                    c = cen[d] + p["shift"][j] * size
+                    c = cen[d] + p["shift"][j] * size * (p["rel"] if p.get("centred") else 1.0)
                     half = 0.5 * p["rel"] * size
                     lo, hi = c - half, c + half
                     if p.get("edge"):
